@@ -91,6 +91,10 @@ def run_engine(ctx, args, name="result", timeout=None, selftest=True):
             if "-drivers" in args:
                 i = args.index("-drivers")
                 args[i + 1] = "(%s)|^Drive_SelfTest" % args[i + 1]
+    record = None
+    if ctx.thorough or os.environ.get("VERIF_SOLVER_DIFF"):
+        record = os.path.join(ctx.scratch, name + ".smt2")
+        args = args + ["-record", record]
     cmd = [build_engine(), "check", "-ws", ctx.ws, "-out", out, "-j", str(NCPU)] + args
     p = subprocess.run(cmd, env=GOENV, stdout=subprocess.PIPE, stderr=subprocess.STDOUT, text=True, timeout=timeout)
     if not os.path.exists(out):
@@ -110,7 +114,43 @@ def run_engine(ctx, args, name="result", timeout=None, selftest=True):
         if any(d["status"] != "undecided" for d in vac):
             raise CheckError("engine self-validation failed: the vacuous driver was not reported as undecided")
         res["selftest"] = [(d["name"], d["status"]) for d in st]
+    if record and os.path.exists(record):
+        res["solver_diff"] = solver_diff(ctx, record)
     return res
+
+
+def solver_diff(ctx, transcript, limit_bytes=80 << 20):
+    """Re-run the query transcript of engine worker 0 through z3-new 5.1.0 and cvc5 and compare the
+    sat/unsat verdict sequences with z3 4.8.12's. Any difference is fatal (exit 2)."""
+    size = os.path.getsize(transcript)
+    if size > limit_bytes:
+        return {"skipped": "transcript of %d bytes exceeds the diff limit" % size}
+    pat = re.compile(r"^(sat|unsat|unknown)$", re.M)
+
+    def run(argv, text):
+        try:
+            p = subprocess.run(argv, input=text, stdout=subprocess.PIPE, stderr=subprocess.STDOUT, text=True, timeout=1800)
+        except subprocess.TimeoutExpired:
+            return None
+        return pat.findall(p.stdout)
+
+    text = open(transcript).read()
+    base = run(["z3", "-in"], text)
+    out = {"queries": len(base or []), "bytes": size}
+    new = run(["z3-new", "-in"], text)
+    ctext = "\n".join(l for l in text.splitlines() if "set-option :timeout" not in l)
+    ctext = ctext.replace("(reset)", "(reset)\n(set-option :global-declarations true)\n(set-option :produce-models true)\n(set-logic QF_BV)")
+    cv = run(["cvc5", "--incremental", "--lang=smt2"], ctext)
+    for nm, o in (("z3-new", new), ("cvc5", cv)):
+        if o is None or base is None:
+            out[nm] = "timeout"
+            continue
+        # unknowns (timeouts) may legitimately differ between solvers; definite verdicts must not
+        diffs = [i for i, (a, b) in enumerate(zip(base, o)) if a != b and "unknown" not in (a, b)]
+        if len(o) != len(base) or diffs:
+            raise CheckError("solver diff: %s disagrees with z3 4.8.12 (%d vs %d verdicts, first difference at query %s)" % (nm, len(o), len(base), diffs[:1]))
+        out[nm] = "agrees on %d verdicts" % len(o)
+    return out
 
 
 # ------------------------------------------------------------------------------------------------
